@@ -104,10 +104,11 @@ CLAIMED = {
    technique=DED + "; contracts of read() against ghost functions of the stream position, resync lemma as base/step/final obligations over those contracts", design="DESIGN.md section 9 C16 and 14.10"),
  "C18": dict(level="proof",
    text="Deductive: ghost failure counter on the strategy object - invariant _delay == 2^(n-1) (0 for n == 0), failure/reset/current_delay_sec == min(2^(n-1), max_delay) for every n and every max_delay >= 1 (unbounded, recursive pow2); "
-        "_get_back_off_time == max(back-off delay, breaker sleep); loss-breaker update; sequential contract of _try_connect (sleeps exactly the back-off time before the single factory call; failure()/reset() exactly once). "
-        "Manager-level timing under asyncio scheduling is NOT decided by per-call contracts (stated). An exhaustive enumeration of failure/reset sequences runs as a bounded cross-check.",
-   note="Manager-level timing (not decided by the per-call contracts): bounded run of the real connect_loop on a real event loop with a virtual clock, every attempt-outcome sequence up to length 6/8 x 4 configurations. Assumed: datetime/timedelta as real-valued instants; _try_connect read sequentially with the closing event arbitrary at every read; factory returns, raises Exception or is cancelled.",
-   technique=DED + "; ghost counter invariant", design="DESIGN.md section 9 C18"),
+        "_get_back_off_time == max(back-off delay, breaker sleep); loss-breaker update; sequential contract of _try_connect (sleeps exactly the back-off time before the single factory call; failure()/reset() exactly once); loop contract of connect_loop read sequentially (one attempt per iteration and first; breaker updated iff a connection ended while not closing; "
+        "the loop never touches pacing state itself; no connection held between iterations), from which the lower bounds of the property follow by a stated composition. "
+        "Timing beyond the sequential reading (scheduler slack, an attempt still running after close()) is NOT decided by per-call contracts (stated). An exhaustive enumeration of failure/reset sequences runs as a bounded cross-check.",
+   note="Manager-level timing (not decided by the per-call contracts): bounded run of the real connect_loop on a real event loop with a virtual clock, every attempt-outcome sequence up to length 6/8 x 4 configurations. Assumed: datetime/timedelta as real-valued instants; _try_connect and connect_loop read sequentially with the closing event arbitrary at every read, asyncio.wait not raising, connect_loop's task not cancelled; factory returns, raises Exception or is cancelled.",
+   technique=DED + "; ghost counter invariant; loop contract of connect_loop (ghost call trace)", design="DESIGN.md section 9 C18 and 14.11"),
  "C19": dict(level="proof",
    text="Deductive, for every history: size postconditions of read() proved from the reader invariants alone - HDLC: no consumed octet retained (len(buffer) <= len(chunk)), frame <= 2047 octets, raw frame data <= 2*2048+1; "
         "P1: len(buffer)+len(collected) <= 8191; loop termination measures. A deep-size measurement on long streams runs as an additional bounded cross-check.",
